@@ -334,7 +334,7 @@ def run(chk: core.Check):
             chk.disagreement("table:MultiDocModes", "mode names are %s" % MultiDocModes.get_names(), {"enum": "MultiDocModes"})
         jobs = [("CORPUS", [dict(c, how=h, files=[]) for c in CORPUS for h in ("mem", "file")] +
                  [dict(c, how="main", files=[c["lhs"], c["rhs"]]) for c in CORPUS])]
-        n = 36000 if tier == "quick" else 400000
+        n = int(os.environ.get("YPV_NRAND") or (36000 if tier == "quick" else 400000))   # override: developer runs only
         per = 480
         p_file, p_main = (0.05, 0.04) if tier == "quick" else (0.05, 0.04)
         jobs += [("RAND", chk.seed * 7919 + i, per, p_file, p_main) for i in range(n // per)]
